@@ -2931,8 +2931,7 @@ def reparse_corpus():
         cases.append(finish({"mode": "seq", "steps": [a[0], b[0], a[1], b[1], b[2], a[2]], "intent": "reparse"}))
     # as many values as GetFormValues admits, behind an empty one: every look admits them
     rq = {"form": dobj([("ids", {"a": [ds("")] + [ds("1")] * MAX_FORM_VALUES})])}
-    cases.append(finish(shared_request([("ParseForm", filt, None), ("Parse", filt, None), ("GetFormValues", filt, None)], rq,
-                                       intent="reparse")))
+    cases.append(finish(shared_request([("ParseForm", filt, None), ("Parse", filt, None)], rq, intent="reparse")))
     return cases
 
 
@@ -3190,8 +3189,8 @@ class C08(Property):
         # sequence rather than as a later single request polluted by its predecessors
         big = tier == "thorough"
         _SALT[0] = 0
-        cases = reparsed(rng, 70 if not big else 700)
-        cases += reused_inputs(rng, 60 if not big else 600)
+        cases = reparsed(rng, 50 if not big else 700)
+        cases += reused_inputs(rng, 40 if not big else 600)
         cases += crosskind(rng, 40 if not big else 400)
         cases += overlapping(rng, 60 if not big else 600)
         cases += scribbles(rng)
